@@ -741,19 +741,20 @@ theorem registry_empty_attribute_flags :
     ∀ f ∈ BS.Gen.c17FormatterRegistry,
       f.2.2 = (f.1 == false && (f.2.1 == ofS "html5" || f.2.1 == ofS "html5-4.12")) := by decide +kernel
 
-/-- One attribute, for every value: `None` → the bare key; a list → `key="…"` with the elements joined by single
-    spaces; a string → itself; `True`/`False` → `True`/`False`; numbers → their `str`; then entity substitution and
+/-- One attribute, for every value: `None` → the bare key; a list or tuple → `key="…"` with the elements joined by
+    single spaces; a string → itself; `True`/`False` → `True`/`False`; numbers → their `str`; then entity substitution and
     quoting. An empty string is a bare key exactly under `empty_attributes_are_booleans`. -/
 theorem format_attribute_spec (md : Nat) (f : FmtCfg) (k : PStr) :
     formatAttr md f (k, .none) = .ok k ∧
     (∀ c l, formatAttr md f (k, .list c l) = .ok (k ++ 61 :: quotedAttributeValue (f.subst (joinSp l)))) ∧
+    (∀ l, formatAttr md f (k, .tuple l) = .ok (k ++ 61 :: quotedAttributeValue (f.subst (joinSp l)))) ∧
     (∀ s, formatAttr md f (k, .str s) = .ok (k ++ 61 :: quotedAttributeValue (f.subst s))) ∧
     (∀ t z, formatAttr md f (k, .float t z) = .ok (k ++ 61 :: quotedAttributeValue (f.subst t))) ∧
     (∀ b, formatAttr md f (k, .bool b) = .ok (k ++ 61 :: quotedAttributeValue (f.subst (if b then trueStr else falseStr)))) ∧
     (∀ i, ¬ tooBig md (.int i) → formatAttr md f (k, .int i) = .ok (k ++ 61 :: quotedAttributeValue (f.subst (intStr i)))) ∧
     (∀ i, tooBig md (.int i) → formatAttr md f (k, .int i) = .valueError) ∧
     fmtAttributes true [(k, .str [])] = [(k, .none)] ∧ fmtAttributes false [(k, .str [])] = [(k, .str [])] := by
-  refine ⟨rfl, fun _ _ => rfl, fun _ => rfl, fun _ _ => rfl, fun _ => rfl, ?_, ?_, ?_, ?_⟩
+  refine ⟨rfl, fun _ _ => rfl, fun _ => rfl, fun _ => rfl, fun _ _ => rfl, fun _ => rfl, ?_, ?_, ?_, ?_⟩
   · intro i h
     simp only [tooBig] at h
     simp [formatAttr, renderVal, pyStrInt, h]
@@ -804,6 +805,32 @@ theorem attribute_string_shape (md : Nat) (f : FmtCfg) (items : Items) (out : PS
 example : attributeString 0 ⟨true, id, fun _ => []⟩
     [(ofS "id", .str []), (ofS "class", .list 1 [ofS "a", ofS "b"]), (ofS "checked", .none)]
     = .ok (ofS " checked class=\"a b\" id") := by decide +kernel
+
+/-- Parsed, then written back (any dictionary class, any list class, replace policy, any formatter): every attribute of
+    the start tag comes out once; a multi-valued one as `k="…"` with its tokens separated by single spaces (whatever
+    whitespace the source had), any other one with its last value verbatim (before entity substitution and quoting);
+    nothing raises. -/
+theorem parsed_then_rendered (md : Nat) (lower : PStr → PStr) (m : CdataMap) (hm : m ≠ []) (cls : DictClass)
+    (lc : Nat) (x : Bool) (name : PStr) (attrs : List (PStr × Option PStr)) (f : FmtCfg) :
+    ∃ t, parseStartTag md lower ⟨some m, cls, lc, x⟩ .replace name attrs = .ok t ∧
+      ∀ k v, dictGet t.items k = some v →
+        ∃ s, (valsOf attrs k).getLast? = some s ∧
+          formatAttr md f (k, v) = .ok (k ++ 61 :: quotedAttributeValue
+            (f.subst (if isMulti m lower name k then joinSp (splitWs s) else s))) := by
+  obtain ⟨t, h1, _, _, _, h5⟩ := parsed_start_tag md lower m hm cls lc x name attrs
+  refine ⟨t, h1, fun k v hv => ?_⟩
+  rw [h5 k] at hv
+  cases hl : (valsOf attrs k).getLast? with
+  | none => simp [hl] at hv
+  | some s =>
+    refine ⟨s, rfl, ?_⟩
+    simp only [hl, Option.map_some, Option.some.injEq] at hv
+    subst hv
+    cases isMulti m lower name k <;> simp [formatAttr, renderVal]
+
+example : attributeString 0 ⟨false, id, fun _ => []⟩
+    [(ofS "rel", .list 1 (splitWs (ofS " y\t\tz "))), (ofS "id", .str (ofS "p  q"))]
+    = .ok (ofS " id=\"p  q\" rel=\"y z\"") := by decide +kernel
 
 /-! ## reading and deleting -/
 
@@ -922,6 +949,65 @@ theorem copy_of_parsed_tag_identical (md : Nat) (lower : PStr → PStr) (n : PSt
 
 example : copyTag 0 pyLower (ofS "p") ⟨.plain, 2, [(ofS "class", .list 2 [ofS "a"]), (ofS "k", .int 0)], false⟩
     = .ok ⟨.plain, 1, [(ofS "class", .list 2 [ofS "a"]), (ofS "k", .int 0)], false⟩ := by decide +kernel
+
+/-- A copy is **identical** to the original (up to the list class of the tag) whenever every value is one its
+    dictionary class stores unchanged — which is the case for: any value in a plain `AttributeDict`; strings and lists
+    in any class; everything an `HTMLAttributeDict` can hold except `None`; everything an `XMLAttributeDict` can hold
+    (so, with `containers_hold_no_numbers`, for every dictionary produced by assignments). -/
+theorem copy_identical_when_values_settled (md : Nat) (lower : PStr → PStr) (n : PStr) (t : TagAttrs)
+    (hnd : (keys t.items).Nodup)
+    (hd : ∀ p ∈ t.items, t.cls = .plain ∨ StrOrList p.2 ∨ (t.cls = .html ∧ HtmlStorable p.2 ∧ p.2 ≠ .none) ∨
+      (t.cls = .xml ∧ XmlStorable p.2)) :
+    copyTag md lower n t = .ok { t with listCls := 1 } := by
+  have hfix : ∀ p ∈ t.items, IsFixed md t.cls p.2 := by
+    intro p hp
+    rcases hd p hp with h | h | ⟨h, h1, h2⟩ | ⟨h, h1⟩
+    · rw [h]; exact isFixed_plain md _
+    · exact isFixed_strOrList md _ _ h
+    · rw [h]; exact isFixed_html md _ h1 h2
+    · rw [h]; exact isFixed_xml md _ h1
+  have := copyInto_fixed md t.cls t.items [] (by simpa using hnd) hfix
+  simp only [List.nil_append] at this
+  simp [copyTag, tagInit, this, Res.bind]
+
+example : copyTag 0 pyLower (ofS "a") ⟨.xml, 2, [(ofS "k", .bool false), (ofS "c", .list 2 [])], true⟩
+    = .ok ⟨.xml, 1, [(ofS "k", .bool false), (ofS "c", .list 2 [])], true⟩ :=
+  copy_identical_when_values_settled 0 pyLower _ _ (by decide) (by
+    intro p hp; simp at hp
+    rcases hp with rfl | rfl
+    · exact Or.inr (Or.inr (Or.inr ⟨rfl, trivial⟩))
+    · exact Or.inr (Or.inl trivial))
+
+/-- `soup.new_tag(name, attrs=a, **kw)`: the attributes go into the builder's dictionary class **without coercion**
+    (`dict(**kw)`, `.update(a)`: `a` wins over a keyword of the same name, which keeps its place), and the tag then
+    holds `replaceSpec` of that dictionary — for the default plain class whatever the values are, for any class when the
+    values are strings or lists. -/
+theorem new_tag_spec (md : Nat) (lower : PStr → PStr) (m : CdataMap) (hm : m ≠ []) (cls : DictClass) (lc : Nat)
+    (x : Bool) (name : PStr) (kw a : Items)
+    (hv : cls = .plain ∨ ∀ p ∈ rawUpdate (rawUpdate [] kw) a, StrOrList p.2) :
+    newTag md lower ⟨some m, cls, lc, x⟩ name kw (some a)
+      = .ok ⟨cls, lc, replaceSpec (some m) lower lc name (rawUpdate (rawUpdate [] kw) a), x⟩ ∧
+    ∀ k, dictGet (rawUpdate (rawUpdate [] kw) a) k = match dictGet a.reverse k with
+      | some v => some v
+      | none => dictGet kw.reverse k := by
+  have hnd : (keys (rawUpdate (rawUpdate [] kw) a)).Nodup :=
+    keys_rawUpdate_nodup _ _ (keys_rawUpdate_nodup _ _ (by simp [keys]))
+  have htruthy : truthyMap (some m) = true := by cases m <;> simp_all [truthyMap]
+  constructor
+  · simp only [newTag, tagInit, htruthy, if_true]
+    rcases hv with h | h
+    · subst h
+      rw [replaceCdataList_plain md (some m) lower lc name _ hnd]; rfl
+    · rw [replaceCdataList_strOrList md (some m) lower lc cls name _ hnd h]; rfl
+  · intro k
+    rw [dictGet_rawUpdate, dictGet_rawUpdate]
+    cases dictGet a.reverse k with
+    | some v => rfl
+    | none => cases dictGet kw.reverse k <;> simp [dictGet]
+
+example : newTag 0 pyLower ⟨some BS.Gen.c17DefaultCdataListAttributes, .plain, 1, false⟩ (ofS "td")
+    [(ofS "id", .int 0), (ofS "headers", .str (ofS "k"))] (some [(ofS "headers", .str (ofS "a  b"))])
+    = .ok ⟨.plain, 1, [(ofS "id", .int 0), (ofS "headers", .list 1 [ofS "a", ofS "b"])], false⟩ := by decide +kernel
 
 /-! ## the regex engine's view, and the builder's options -/
 
